@@ -469,6 +469,13 @@ class MADDPG(MultiAgentRLAlgorithm):
                     min_action,
                     max_action,
                 )
+            elif not self.discrete_actions:
+                # Custom actor networks do not rescale their output: stay inside the action space
+                actions = torch.clamp(
+                    actions,
+                    torch.as_tensor(self.min_action[idx], device=actions.device),
+                    torch.as_tensor(self.max_action[idx], device=actions.device),
+                )
 
             action_dict[agent_id] = actions.cpu().numpy()
 
